@@ -57,6 +57,9 @@ CLAIMED = {
  "C17": dict(technique="TLA+ conversion table (Convert.tla: ranges, kinds, first-failure rule) checked by TLC; every (target, source) replayed through TryFrom<Value> and From<T>",
    text="TLC enumerates every target type x source value (all boundaries +-1 of all ten integer widths, whole range of the 8/16-bit targets, every Value variant) and container targets with a non-convertible element at each position, checking range-exactness and kind-exactness on the spec; the harness extracts with TryFrom<Value>, injects back with From<T>, and compares outcome class, error payload and the representation of the round-tripped value.",
    ref="6 C17", note="Trusted: Convert.tla. f32 / usize have only the From direction in the crate; Vec<Value> has no TryFrom (noted in the harness)."),
+ "C18": dict(technique="compile probes (rustc decides Send/Sync) + TLA+ ruleset machine model-checked over all micro-step interleavings + real multi-threaded runs recorded and validated by TLC as traces (RuleSetTrace.tla)",
+   text="Two parts. (a) The auto-trait sentence is decided by the compiler: a probe crate with static Send/Sync assertions for every public type and for the futures of Expr::evaluate, RuleSet::evaluate and evaluate_value must compile (a control probe without the bounds separates an API change from a violation). (b) TLC explores every interleaving of machine micro-steps of three evaluations over one ruleset (outcomes = function of ruleset and input, no leak, no side effect), and real concurrent runs (16 threads, tokio multi-thread runtime and std threads, shared Arc<RuleSet>, user functions that yield) are recorded with per-evaluation ids and a global atomic order; TLC validates every recorded evaluation against the specification and the harness compares with a sequential run.",
+   ref="6 C18", note="C18a is not a TLA+ result (stated in DESIGN section 7): it is the compile-time precondition of the binding. Real thread interleavings are sampled, not enumerated."),
 }
 NA = {
  "C19": "stack exhaustion is a resource limit of the host (frame size x thread stack), not a property of an abstract transition system; a TLA+ model can only restate 'depth is unbounded' (DESIGN section 7)",
